@@ -657,4 +657,58 @@ theorem conc_sure_pins_in_every_log (init : List Nat) (phases : List (List COp))
   cLogs_inv (normPeers init) SurePins cAdvance (surePins_step (normPeers init)) phases (cInit init) [[.boot init]]
     (by intro l hl; rw [List.mem_singleton.1 hl]; exact surePins_init init)
 
+/-! ### extensionality of well-formed pinsets under `sureMap` / `canonMap` -/
+
+theorem get_sureMap (u : List Nat) (m : PinMap) (c : Nat) :
+    (sureMap u m).get c = if u.contains c = true then none else m.get c := by
+  unfold sureMap PinMap.get
+  rw [List.find?_filter]
+  by_cases hu : u.contains c = true
+  · rw [if_pos hu, List.find?_eq_none]
+    intro x _ hx
+    simp only [Bool.and_eq_true, beq_iff_eq, Bool.not_eq_true'] at hx
+    have hx' := of_decide_eq_true hx
+    rw [hx'.2, hu] at hx'
+    exact absurd hx'.1 (by simp)
+  · rw [if_neg hu]
+    congr 1
+    funext x
+    by_cases hx : x.cid = c
+    · subst hx
+      rw [Bool.not_eq_true] at hu
+      simp only [hu, Bool.not_false, Bool.true_and]
+      simp
+    · simp [hx]
+
+theorem wf_sureMap (u : List Nat) {m : PinMap} (hw : m.wf = true) : (sureMap u m).wf = true := by
+  induction m with
+  | nil => simp [sureMap, PinMap.wf, PinMap.keys, sortedKeys]
+  | cons x t ih =>
+    have hw' := wf_cons.1 hw
+    unfold sureMap at ih ⊢
+    by_cases hx : (!u.contains x.cid) = true
+    · rw [List.filter_cons_of_pos (p := fun p : Pin => !u.contains p.cid) hx, wf_cons]
+      exact ⟨fun q hq => hw'.1 q (List.mem_of_mem_filter hq), ih hw'.2⟩
+    · rw [List.filter_cons_of_neg (p := fun p : Pin => !u.contains p.cid) hx]; exact ih hw'.2
+
+theorem sureMap_ext (u : List Nat) {m1 m2 : PinMap} (h1 : m1.wf = true) (h2 : m2.wf = true)
+    (h : ∀ c, u.contains c = false → m1.get c = m2.get c) : sureMap u m1 = sureMap u m2 := by
+  apply ext_of_wf (wf_sureMap u h1) (wf_sureMap u h2)
+  intro c
+  rw [get_sureMap, get_sureMap]
+  by_cases hu : u.contains c = true
+  · rw [if_pos hu, if_pos hu]
+  · rw [if_neg hu, if_neg hu]; exact h c (by simpa using hu)
+
+theorem canon_sureMap (u : List Nat) (m : PinMap) : canonMap (sureMap u m) = sureMap u (canonMap m) := by
+  unfold canonMap sureMap
+  rw [List.filter_map]
+  rfl
+
+/-- the sure part of a reported pinset that is (canonically) the log's pinset is the sure part of the bookkept pinset -/
+theorem surePins_kept {s : CSt} {log : List Entry} (hS : SurePins s log) {pins : PinMap}
+    (hp : canonMap pins = canonMap (pinsAt log)) :
+    canonMap (sureMap s.unsureC pins) = canonMap (sureMap s.unsureC s.pinset) := by
+  rw [canon_sureMap, hp, ← canon_sureMap, sureMap_ext s.unsureC (wf_pinsAt log) hS.1 hS.2]
+
 end CV.C17
